@@ -168,6 +168,12 @@ def run(ck, writers=('encap', 'encap_frag', 'encap_ext'), pid_rules='C06', floor
         for part in seen_fields:
             if part[0] in ('IntermediateFragPkt', 'EndFragPkt') and part[1] != 'ReUse':
                 ck.finding(f'{pid_rules}.R6', ENC + wname, f"fragment-label-type:{part}", f"{wname}: {part[0]} emitted with label type {part[1]} (must be 11: it reads as padding or a labelled packet otherwise)")
+    if 'encap_ext' in writers:
+        # what the general analysis of encap_ext has to decline (offsets carried through the two loops over the extensions) is
+        # decided exactly for chains of one, two and three extensions: written bytes = [0, returned length), every id / data
+        # block / displaced protocol type / PDU at its ETSI offset for the label type announced in the header
+        from rules import c13
+        c13.bounded_chain_rules(ck, pid=f'{pid_rules}.R8', parts=('tiling', 'layout'))
     ck.rule(f'{pid_rules}.R1 generate_gse_header calls in emitters', n_hdr, floors[0])
     ck.rule(f'{pid_rules}.R2/R3/R5 Ok returns of emitters', n_ret, floors[1])
     ck.rule(f'{pid_rules}.R3/R4 writes into the output buffer classified against the spec table', n_rows, floors[2])
